@@ -106,8 +106,19 @@ Strings(n) == IF n = 0 THEN {<<>>} ELSE LET P == Strings(n - 1) IN P \cup {Appen
 LocaleClasses == { [name |-> "en", D |-> ".", G |-> ","], [name |-> "de", D |-> ",", G |-> "."] }
 
 MCAlphabet == {"1", "2", "0", ",", ".", "-", "+", "e", "%", "$", "€", "/", " "}
+(* longer strings composed from the parts of the grammar: [sign] [currency] mantissa [exponent] [% | currency],
+   and the sign after the currency symbol *)
+SignParts == {<<>>, <<"-">>, <<"+">>}
+CurParts  == {<<>>, <<"$">>, <<"€">>}
+MantParts == {<<"1">>, <<"1", "2">>, <<"1", ".", "5">>, <<"1", ",", "5">>, <<"1", ",", "2", "0", "0">>, <<"1", ".", "2", "0", "0">>,
+              <<".", "5">>, <<"1", ".">>, <<"1", ",", ",", "2", "0", "0">>, <<"1", "2", ",", "0", "0">>}
+ExpParts  == {<<>>, <<"e", "1">>, <<"E", "-", "1">>, <<"e", "+", "2">>, <<"e">>}
+SufParts  == {<<>>, <<"%">>, <<"$">>, <<"€">>}
+Composed == {sg \o cu \o m \o x \o sf : sg \in SignParts, cu \in CurParts, m \in MantParts, x \in ExpParts, sf \in SufParts}
+            \cup {cu \o sg \o m \o x : sg \in SignParts \ {<<>>}, cu \in CurParts \ {<<>>}, m \in MantParts, x \in ExpParts}
+
 VARIABLE c
-NInit == c \in [s : Strings(MaxLen) \ {<<>>}, loc : LocaleClasses]
+NInit == c \in [s : (Strings(MaxLen) \cup Composed) \ {<<>>}, loc : LocaleClasses]
 NSpec == NInit /\ [][UNCHANGED c]_c
 
 (* design-level sanity: a recognised number has digits, and the verdict does not depend on
